@@ -621,6 +621,31 @@ func (t *tr) forStmt(x *ast.ForStmt) {
 	bodyAll()
 	keep()
 	t.cur = t.join(lc.breaks...)
+	t.loopExit(k, x.Body.Lbrace, nil)
+}
+
+// loopExit asserts the `loop k exit` clauses at the point where control leaves loop k.
+func (t *tr) loopExit(k int, pos token.Pos, alias map[string]*Var) {
+	if t.cur == nil || t.u.Contract == nil {
+		return
+	}
+	for _, c := range t.u.Contract.Clauses {
+		if c.Kind != "loopexit" || c.Loop != k {
+			continue
+		}
+		sc := t.unitSpecCtx(t.cur.Env)
+		sc.pos = pos
+		sc.loop = k
+		for n, av := range alias {
+			sc.vars[n] = t.readIn(t.cur.Env, av)
+			if sc.bound == nil {
+				sc.bound = map[string]bool{}
+			}
+			sc.bound[n] = true
+		}
+		sc.where = c.Where
+		t.assert(t.spec(c.Expr, sc), fmt.Sprintf("loop-exit/%d", k), c.Label, pos, "holds where the loop is left: "+c.Text)
+	}
 }
 
 func (t *tr) rangeStmt(x *ast.RangeStmt) {
@@ -665,7 +690,8 @@ func (t *tr) rangeStmt(x *ast.RangeStmt) {
 		t.errorf(x.Pos(), "unsupported range over %v", XT)
 		return
 	}
-	if kind == "seq" || kind == "int" {
+	if kind == "seq" || kind == "int" || kind == "map" {
+		// for a map, range_idx counts the iterations made so far (the number of keys visited)
 		t.assign(idxVar, intLit(0))
 	}
 	var visited *Var
@@ -731,6 +757,11 @@ func (t *tr) rangeStmt(x *ast.RangeStmt) {
 				kq := Term{S: fmt.Sprintf("k$r%d", t.qcount), Sort: t.V.W.sortOf(m.Key())}
 				stillThere := and(sel(entryDom, kq), sel(sel(t.read(dom), coll), kq))
 				t.assume(or(eq(coll, intLit(0)), forallT([]Term{kq}, implies(stillThere, sel(t.read(visited), kq)))))
+				// a completed iteration over a map that was not changed meanwhile made exactly len(map) steps
+				_, _, lnH := t.mapHeaps(m)
+				sameDom := eq(sel(t.read(dom), coll), entryDom)
+				t.assume(implies(and(neq(coll, intLit(0)), sameDom), eq(t.read(idxVar), sel(t.read(lnH), coll))))
+				t.assume(implies(eq(coll, intLit(0)), eq(t.read(idxVar), intLit(0))))
 			}
 			t.cur = bs[0]
 			kv := t.havocTerm("rangekey", m.Key())
@@ -749,7 +780,7 @@ func (t *tr) rangeStmt(x *ast.RangeStmt) {
 		}
 		t.stmt(x.Body)
 		t.cur = t.join(append([]*Block{t.cur}, lc.continues...)...)
-		if t.cur != nil && (kind == "seq" || kind == "int") {
+		if t.cur != nil && (kind == "seq" || kind == "int" || kind == "map") {
 			t.assign(idxVar, add(t.read(idxVar), intLit(1)))
 		}
 		t.loops = t.loops[:len(t.loops)-1]
@@ -780,6 +811,7 @@ func (t *tr) rangeStmt(x *ast.RangeStmt) {
 	bodyAll()
 	keep()
 	t.cur = t.join(lc.breaks...)
+	t.loopExit(k, x.Pos(), alias)
 }
 
 // ---- switch ----
